@@ -10,7 +10,7 @@ META = {
         "quick": "noop backend: every history of <=3 operations over 21 concrete operations (register f_i into owner o_j, unregister, move-assign, "
                  "move-construct+destroy) on 3 functions x 3 owners, followed by a dispatch through every live entry point and destruction of all owners; "
                  "65 registrations on the 64-entry table; owner operations after destroy_sandbox",
-        "thorough": "histories of <=4 operations",
+        "thorough": "histories of <=4 operations (depth-4 histories start with a registration; a first operation on empty owners is a no-op and is covered at depth 3); dylib histories of <=3 operations",
     },
     "outside": "pools larger than 3 functions/owners, histories longer than the bound; the dylib backend is instantiated in the thorough tier only "
                "(depth 3); re-creation after destroy is covered by C14",
@@ -194,12 +194,17 @@ def check_recreate(ctx):
 
 
 def jobs(tier, seed):
-    depth = 3 if tier == "quick" else 4
     src = NOOP + '#include "C13_hist.inc"\n'
     out = []
     for f in range(NOPS):
-        out.append(Job("C13_hist_%d" % f, src, [dict(name="noop histories depth %d first op %d" % (depth, f), fn=check_hist, kw=dict(depth=depth, first=f), unwind=400)],
+        out.append(Job("C13_hist_%d" % f, src, [dict(name="noop histories depth 3 first op %d" % f, fn=check_hist, kw=dict(depth=3, first=f), unwind=400)],
                        max_paths=400000))
+    if tier == "thorough":
+        # depth 4: a first operation that acts on empty owners (unregister / move / move-construct) leaves the initial state
+        # unchanged, so those histories are covered by depth 3; only the 9 registrations need to be extended
+        for f in range(9):
+            out.append(Job("C13_hist4_%d" % f, src, [dict(name="noop histories depth 4 first op %d" % f, fn=check_hist, kw=dict(depth=4, first=f), unwind=400)],
+                           max_paths=400000))
     out.append(Job("C13_after_destroy", src, [dict(name="owner operations after destroy_sandbox", fn=check_after_destroy, unwind=400)], native=False))
     if tier == "thorough":
         dsrc = DYLIB + '#include "C13_hist.inc"\n'
